@@ -114,7 +114,15 @@ impl<'tree, D: Doc> MetaVarEnv<'tree, D> {
     var_matchers: &HashMap<MetaVariableID, M>,
   ) -> bool {
     let mut env = Cow::Borrowed(self);
-    for (var_id, candidate) in &self.single_matched {
+    // constraints share one env, so the order matters when two of them can bind the same
+    // variable: visit the variables by name, not in hash order, to keep results reproducible
+    let mut constrained: Vec<_> = self
+      .single_matched
+      .iter()
+      .filter(|(var_id, _)| var_matchers.contains_key(*var_id))
+      .collect();
+    constrained.sort_by(|a, b| a.0.cmp(b.0));
+    for (var_id, candidate) in constrained {
       if let Some(m) = var_matchers.get(var_id) {
         if m.match_node_with_env(candidate.clone(), &mut env).is_none() {
           return false;
